@@ -138,6 +138,10 @@ structure St where
   value : Cid → Option Val := fun _ => some 0
   /-- `aio_stop_event.is_set()` -/
   stopped : Bool := false
+  /-- `loop.call_soon_threadsafe(async_send_event, topic, data, None, immediate)` calls made by
+      `AccessoryDriver.publish` on a worker thread and not yet run by the loop (FIFO); `data`
+      carries the value captured at notify time -/
+  handoffs : List (Cid × Val) := []
 
 /-- requests as the dispatcher sees them (one complete HTTP request per `data_received`) -/
 inductive Req
@@ -161,6 +165,11 @@ inductive Ev
   | data (p : ObjId) (r : Req)
   /-- `char.set_value(v)` by the application (loop thread) -/
   | appSet (x : Cid) (v : Val)
+  /-- `char.set_value(v)` by the application on a WORKER thread: validate + assign now; the
+      notification is handed over to the loop (iff the topic has subscribers at that instant) -/
+  | appSetWorker (x : Cid) (v : Val)
+  /-- the loop runs the oldest pending hand-off: `async_send_event(topic, data, None, immediate)` -/
+  | handOff
   | timerFire (p : ObjId)
   | soonFlush (p : ObjId)
   /-- the snapshot task of `p` finished (`ok = false`: it raised, e.g. its 9 s timeout):
@@ -313,6 +322,20 @@ def unsubSt (s : St) (p : ObjId) (x : Cid) : St :=
   { s with topics := upd s.topics x (subDel (s.topics x) (s.obj p).addr)
            obj := upd s.obj p { s.obj p with since := upd (s.obj p).since x false } }
 
+/-- `Characteristic.set_value(v)` on a worker thread: `changed` test and assignment happen at once,
+    `AccessoryDriver.publish` tests `topic not in self.topics` on the worker thread and defers
+    `async_send_event` with the captured value through `call_soon_threadsafe` -/
+def appSetWorker (c : Cfg) (s : St) (x : Cid) (v : Val) : St :=
+  let changed := s.value x ≠ some v
+  let s1 := { s with value := upd s.value x (if c.nul x then none else some v) }
+  if changed ∧ (s.topics x).isSome then { s1 with handoffs := s.handoffs ++ [(x, v)] } else s1
+
+/-- the deferred `async_send_event` (originator none; immediate flag of the characteristic type) -/
+def handOff (c : Cfg) (s : St) : St :=
+  match s.handoffs with
+  | [] => s
+  | (x, v) :: rest => publish c { s with handoffs := rest } x v none
+
 /-- `_notify`: the `ev` member of a write query -/
 def putSub (c : Cfg) (s : St) (p : ObjId) (x : Cid) (ev : Option Bool) : St :=
   let a := (s.obj p).addr
@@ -410,6 +433,8 @@ def step (c : Cfg) (s : St) : Ev → St × List Out
   | .data p r =>
     if p < s.nobj ∧ (s.obj p).closing = false then onData c s p r else (s, [])
   | .appSet x v => (appSet c s x v, [])
+  | .appSetWorker x v => (appSetWorker c s x v, [])
+  | .handOff => (handOff c s, [])
   | .timerFire p =>
     if p < s.nobj ∧ (s.obj p).timer.isSome then sendEvents s p else (s, [])
   | .soonFlush p =>
